@@ -386,7 +386,7 @@ def run_C15(tier, seed, res, drv, replay=None):
     res.rule = ("flat: every digraph without self-loops on <= N nodes (quick N=4, thorough N=5 sampled) x iteration "
                 "orders chosen through __hash__; random digraphs up to 12 nodes; each also placed inside trees of depth "
                 "<= 3 (nested check_cycles, list()); edit histories on the same objects. non-trivial = at least one "
-                "edge (flat) / at least one nested scheduler (tree); distinct by (edges, ranks) / (tree, edges)")
+                "edge (flat) / at least one nested scheduler (tree); distinct by (edges, ranks) / (tree, edges) Also: trees reached through a history (list / list_safe / dot_format / check_cycles / exit_jobs / run(), then part of the edges added); already-scanned jobs regrouped into a new nested scheduler.")
     if replay:
         c = replay["case"]
         if c["kind"] == "flat":
@@ -538,7 +538,7 @@ def run_C16(tier, seed, res, drv, replay=None):
     res.rule = ("random scheduler trees (depth <= 3) with extra edges to jobs of no scheduler / of sibling, parent or "
                 "child schedulers / to and from nested schedulers; exhaustive placement of one or two dangling edges "
                 "in three fixed small trees; return value of first and second call compared. non-trivial = at least "
-                "one dangling edge or one nested scheduler; distinct by (tree, edges)")
+                "one dangling edge or one nested scheduler; distinct by (tree, edges) Also: sanitize / edit / sanitize histories on the same objects (also through keep_only_between), the verbose argument and attribute.")
     if replay:
         c16_case(replay["case"]["spec"], res, batch, "replay")
         batch.flush()
@@ -710,7 +710,7 @@ def run_C17(tier, seed, res, drv, replay=None):
     res.rule = ("every DAG on <= N nodes (quick 4, thorough 5) x forever assignments (sampled) x every non-empty start "
                 "set of size <= 3 (sampled to 12 per size); cyclic digraphs on <= 3 nodes; random DAGs up to 12 nodes; "
                 "iterate_jobs on random trees of depth <= 3; queries after random edit histories. non-trivial = at "
-                "least one edge / nested scheduler; distinct by (edges, forever) / tree / history")
+                "least one edge / nested scheduler; distinct by (edges, forever) / tree / history Also: nodes that are nested schedulers (empty ones included), graphs that are not closed (members requiring outsiders), edit histories with bypass, remove + add back, new jobs.")
     if replay:
         c = replay["case"]
         if c["kind"] == "flat":
@@ -865,7 +865,7 @@ def run_C18(tier, seed, res, drv, replay=None):
     res.rule = ("every DAG on <= N nodes (quick 4, thorough 5 sampled) x every bypass target, every keep_only subset, "
                 "every (starts, ends) with |.| <= 2 x both keep flags (sampled when large); random DAGs up to 12 nodes; "
                 "random sequences of 1-6 operations on the same scheduler. non-trivial = the graph has an edge; "
-                "distinct by (edges, operation list)")
+                "distinct by (edges, operation list) Also: nodes that are nested schedulers (empty ones included); starts / ends / remains passed as lists, tuples, sets, one-shot iterators and generators.")
     if replay:
         c = replay["case"]
         c18_ops_case(c["spec"], [tuple(o) for o in c["ops"]], res, batch, "replay")
@@ -1333,7 +1333,7 @@ def run_C19(tier, seed, res, drv, replay=None):
                 "arguments nested to depth 3 (lists, tuples, sets, None, sequences inside collections, empty "
                 "sequences), append with several arguments, remove=True with sequences and collections; fixed corpus "
                 "of documented idioms; state compared after every statement. non-trivial = at least two statements "
-                "executed; distinct by program text")
+                "executed; distinct by program text Also: sequences built, edited (chain edge removed, requirement added, required by an outsider), then extended.")
     if replay:
         c = replay["case"]
         c19_case([fix_op(o) for o in c["prog"]], c["nj"], c["nq"], res, batch, "replay")
@@ -1633,7 +1633,7 @@ def run_C20(tier, seed, res, drv, replay=None):
                 "level, labels over quotes / newlines / DOT punctuation / non-ASCII / empty (no backslash), all flag "
                 "assignments; every string also quoted alone (quote component). dot_format() compared byte for byte "
                 "with the model's rendering, parsed by an independent DOT-subset parser and fed to `dot -Tcanon`. "
-                "non-trivial = nested scheduler or a label with a quote/newline/brace; distinct by (tree, edges, labels)")
+                "non-trivial = nested scheduler or a label with a quote/newline/brace; distinct by (tree, edges, labels) Also: trees reached through a history (list / list_safe / dot_format / run(), then part of the edges added); the model's own DOT lexer + parser applied to the real text (dotparse) and fuzzed against graphviz (dotgrammar).")
     if replay:
         c20_case(replay["case"]["spec"], res, batch, "replay", dot_texts)
         batch.flush()
